@@ -1,16 +1,20 @@
 #!/bin/bash
-# run_seeded_copy.sh <seeded-dir> [props...]: like run_seeded.sh but on a scratch copy of /repo (HEAD) under /tmp,
-# so that /repo is not touched (used while something else is reading /repo). The copy is removed afterwards.
+# run_seeded_copy.sh <seeded-dir> [props...]: apply a seeded change to a scratch copy of /repo (HEAD) and run the check(s) against it
+# from a private copy of /verif (so that parallel runs cannot see each other's regenerated tables). /repo and /verif are not touched,
+# except that replay files are copied back to /verif/replay. Both copies are removed afterwards.
 set -u
 dir="$1"; shift
 props="$@"
-cd /verif
 if [ -z "$props" ]; then props=$(python3 -c "import json;print(json.load(open('$dir/meta.json'))['property'])"); fi
-S=$(mktemp -d /tmp/tucan-scratch-XXXXXX)
-trap 'rm -rf "$S"' EXIT
+S=$(mktemp -d /tmp/tucan-scratch-XXXXXX); W=$(mktemp -d /tmp/verif-seeded-XXXXXX)
+trap 'rm -rf "$S" "$W"' EXIT
 git -C /repo archive HEAD | tar -x -C "$S"
 ( cd "$S" && git init -q . && git apply "$dir/patch.diff" ) || { echo "patch does not apply"; exit 2; }
+rsync -a --exclude .git --exclude replay --exclude seeded --exclude neutral /verif/ "$W/"
+cd "$W"
 for p in $props; do
   echo "--- $p on $(basename $dir)"
-  TUCAN_REPO="$S" timeout 1800 ./check $p --tier quick 2>&1 | grep -E "VIOLATION|KNOWN-FINDING|PASS|FAIL" | head -5 | cut -c1-230
+  TUCAN_REPO="$S" timeout 1800 ./check $p --tier quick 2>&1 | grep -E "VIOLATION|KNOWN-FINDING|PASS|FAIL" | head -5 | cut -c1-230 | sed "s#$W/#/verif/#"
 done
+mkdir -p /verif/replay; cp -n "$W"/replay/* /verif/replay/ 2>/dev/null
+exit 0
